@@ -183,25 +183,48 @@ def validName (i : Input) (name : Name) : Name :=
     if v.length > maxLen then sanitize name else v
   else sanitize name
 
+def notdef : Name := ['.', 'n', 'o', 't', 'd', 'e', 'f']
+
+/-- the glyphs `_build_production_names` gives a new name: the negation of
+    `name not in self.glyphSet or name == ".notdef"` (glyphs without source information keep their name, and
+    so does '.notdef': the first glyph of a CFF charset has to be called '.notdef') -/
+def renames (i : Input) (name : Name) : Bool := inGs i.glyphSet name && name != notdef
+
 /-- `_build_production_names`: the loop over the glyph order with its two dicts. -/
 def buildLoop (i : Input) : List Name → Seen → List (Name × Name) → List (Name × Name)
   | [], _, rm => rm
   | name :: rest, seen, rm =>
-    if !inGs i.glyphSet name then buildLoop i rest seen rm
+    if !renames i name then buildLoop i rest seen rm
     else
       let r := uniqueName (validName i name) seen
       buildLoop i rest r.2 (dset name r.1 rm)
 
-/-- `seen = {name: 1 for name in otf.getGlyphOrder() if name not in self.glyphSet}`: the names of the
-    glyphs that are not in the source (they keep their name) are reserved up front. -/
+/-- `seen = {name: 1 for name in otf.getGlyphOrder() if name not in self.glyphSet or name == ".notdef"}`:
+    the names of the glyphs that keep their name are reserved up front. -/
 def seenInit (i : Input) : Seen :=
-  (i.order.filter (fun n => !inGs i.glyphSet n)).foldl (fun d n => dset n 1 d) []
+  (i.order.filter (fun n => !renames i n)).foldl (fun d n => dset n 1 d) []
 
 def buildProductionNames (i : Input) : List (Name × Name) := buildLoop i i.order (seenInit i) []
 
+/-! #### earlier versions of the function, kept ONLY for the labelled counterexamples in `Props/C11.lean` -/
+
+/-- the loop as it was before '.notdef' was exempted: every glyph of the glyph set is renamed -/
+def buildLoopOld (i : Input) : List Name → Seen → List (Name × Name) → List (Name × Name)
+  | [], _, rm => rm
+  | name :: rest, seen, rm =>
+    if !inGs i.glyphSet name then buildLoopOld i rest seen rm
+    else
+      let r := uniqueName (validName i name) seen
+      buildLoopOld i rest r.2 (dset name r.1 rm)
+
 /-- `_build_production_names` as it was before the names of unsourced glyphs were reserved
     (`seen = {}`); kept only for the counterexample `C11_old_collision`. -/
-def buildProductionNamesOld (i : Input) : List (Name × Name) := buildLoop i i.order [] []
+def buildProductionNamesOld (i : Input) : List (Name × Name) := buildLoopOld i i.order [] []
+
+/-- `_build_production_names` with the reservation but before '.notdef' was exempted; kept only for the
+    counterexample `C11_old_notdef_renamed`. -/
+def buildProductionNamesOldNotdef (i : Input) : List (Name × Name) :=
+  buildLoopOld i i.order ((i.order.filter (fun n => !inGs i.glyphSet n)).foldl (fun d n => dset n 1 d) []) []
 
 /-! ### rename_glyphs -/
 
@@ -212,6 +235,8 @@ def applyMap (rm : List (Name × Name)) (n : Name) : Name := (alookup n rm).getD
 def finalOrder (i : Input) : List Name := i.order.map (applyMap (buildProductionNames i))
 
 def finalOrderOld (i : Input) : List Name := i.order.map (applyMap (buildProductionNamesOld i))
+
+def finalOrderOldNotdef (i : Input) : List Name := i.order.map (applyMap (buildProductionNamesOldNotdef i))
 
 def isStandard (n : Name) : Bool := standardGlyphOrder.contains (String.ofList n)
 
